@@ -18,10 +18,30 @@ InsertPadding and operand-dependent instruction sizes), wrappers PassLoop_MC / _
     the page in force at a statement is that of the last Assume before it in program order, 0 at the start of
     EVERY pass; a direct-form operand byte b stands for page*256+b (PassLayout PageAt / EncVal).  The model with
     PageReset = FALSE (PassLoop_MC_page_leak.cfg) must violate Fixpoint.
+    A fourth alphabet (name scopes; PassLoop_Gen_sectabs.cfg: <= 5 items + closing ENDSECTIONs, one name in the two
+    spellings la / LA, origin 253; PassLoop_Gen_nestabs.cfg: two nested sections, data words la, la[], la[PARENTn])
+    adds SECTION / ENDSECTION / FORWARD statements and names with a section in brackets.  The symbol table is
+    keyed by <<name, scope>>; PassLayout Bind states which symbol a use of a name denotes (innermost enclosing
+    scope that defines it anywhere in the text, or exactly the bracketed one; spellings that differ in case are
+    one name unless -U), PassLoop FindNode / EnterSymbol / the FORWARD list model how asmpars.c gets there
+    (FORWARD list of the innermost section, consulted in pass 1 only, names folded before they are compared).
+    Why it was added: a program whose ONLY reason for a second pass is a reference that resolves differently once
+    a later, section-local definition is known (same name in an outer scope, FORWARD in front of the use) was in
+    no alphabet - every forward reference of the older alphabets is an unknown symbol in pass 1 -, so a FindNode
+    that misses the FORWARD entry of a name not written in capitals (and therefore silently binds the outer
+    symbol, asks for no second pass and ends with the outer value in the operand) passed the check.
+    C01 is stated for the programs the manual gives a definite outcome: PassLayout ScopeSafe excludes the accident
+    the manual itself describes under FORWARD (reference in front of an unannounced local definition while an
+    outer scope has the name: "the second pass will not be started at all"); the model reproduces that accident
+    (export field `accident`, thorough: PassLoop_MC_sect_accident.cfg must refute Fixpoint without the premise),
+    such programs are replayed with their layout as a diagnostic only.
 (G) TLC (PassLoop_Gen) exports every program up to the bound once, plus simulated longer ones (<= 12 items,
     3 labels), each with the model's prediction.  Every program is rendered for the dialects of its class
     (68000 | 6809, 68HC11, 6502 | 8086; MSP430 .byte/.word/nop for the padded self-reference programs; 6809 + 65CE02 for the ASSUME programs; label
-    spellings and mnemonics seed-chosen), assembled by the real asl
+    spellings and mnemonics seed-chosen; scope programs: quick = all of <= 5 items and all in which a name is used
+    where two scopes define it + a sample, one seed-chosen dialect each, section names / PARENTn / keyword case
+    seed-chosen, and once more with option -U when the specification says every name has one spelling (`ufree`);
+    thorough adds <= 6 items, 68000 and 8086 alphabets and an alphabet read under -U), assembled by the real asl
     under ASL_VERIF_MAX_PASSES=40, and again with ASL_VERIF_EXTRA_PASSES=1.  The code file is decoded item by
     item (marker byte pair after each label, opcode table per reference kind) into a layout that goes back to
     TLC (PassLoop_Obs), which evaluates the declarative predicate Valid on it.
@@ -34,7 +54,8 @@ InsertPadding and operand-dependent instruction sizes), wrappers PassLoop_MC / _
     fixpoint in the last clean pass, no change in the extra pass.
 
 NOT covered: targets other than the five rendered ones except through (V) on the corpus; programs above the
-bounds; ORG/PHASE/ALIGN/sections/macros inside the generated programs (corpus only); WHILE / recursive macros /
+bounds; ORG/PHASE/ALIGN/macros inside the generated programs (corpus only); PUBLIC / GLOBAL (definitions assigned
+to another scope) and section names reused in different parents; WHILE / recursive macros /
 MOMPASS / READ are outside the property.  Error outcomes (out-of-range branch) are predicted by the model but are
 not part of C01's statement: disagreement is SPEC-DRIFT.
 
@@ -61,6 +82,9 @@ Mutations of the real code tried on scratch copies (selftest/C01-*.diff, `./chec
   m9 6809 DPRValue initialised once at start-up instead of per    suite  0 fail   caught: Obs 'value' on lda la /
      pass (ASSUME DPR of the previous pass sizes operands in                       assume dpr:1 / la: at 254 (stable but
      front of the first ASSUME)                                                    wrong), extra-pass code differs
+  m10 FindNode compares the name with the FORWARD list BEFORE it   suite  0 fail   caught: Obs 'value' + extra pass
+     is folded to upper case (FORWARD of a name not in capitals                    changes code file (la: / section /
+     has no effect, outer symbol bound, no second pass)                            forward la / lda la / LA: sectabs)
   fix the three proposed repairs applied                                           check exits 0 without KNOWN-FINDING
 A run on the unchanged tree exits 0 with the KNOWN-FINDING lines listed above.
 """
@@ -76,8 +100,11 @@ PID = "C01"
 CAP = 40
 CLASSES = ("68k", "abs", "86")
 SELFCLASSES = ("self68k", "selfabs", "self86")   # alphabets with self-referencing (padded) reference statements
-# further alphabets judged with the PassLoop_Obs config of their base class; pageabs: ASSUME DPR / ASSUME B items
-EXTRA = {"68k": ("self68k",), "abs": ("selfabs", "pageabs"), "86": ("self86",)}
+# further alphabets judged with the PassLoop_Obs config of their base class; pageabs: ASSUME DPR / ASSUME B items;
+# sect*/nest*: SECTION / ENDSECTION / FORWARD / name[section] around one name in two spellings (name scopes)
+EXTRA = {"68k": ("self68k",), "abs": ("selfabs", "pageabs", "sectabs", "nestabs"), "86": ("self86",)}
+EXTRA_THOROUGH = {"68k": ("sect68k",), "abs": (), "86": ("sect86",)}      # added by the thorough tier
+SCOPECLASSES = ("sectabs", "nestabs", "sect68k", "sect86", "sectabsU")
 
 
 # ------------------------------------------------------------------------------------------------
@@ -115,6 +142,11 @@ def tlc_jobs(tier):
         if tier != "quick":
             jobs["MC_" + c] = dict(module="PassLoop_MC", cfg="PassLoop_MC_%s5.cfg" % c, mem="12g", workers=4)
     jobs["Gen_pageabs"] = dict(module="PassLoop_Gen", cfg="PassLoop_Gen_pageabs.cfg", tags=("OUT",), collect=True)
+    for c in ("sectabs", "nestabs") + (("sect68k", "sect86", "sectabsU") if tier != "quick" else ()):
+        jobs["Gen_" + c] = dict(module="PassLoop_Gen", tags=("OUT",), collect=True, mem="8g",
+                                cfg="PassLoop_Gen_%s%s.cfg" % (c, "6" if tier != "quick" and c in ("sectabs", "nestabs") else ""))
+    if tier != "quick":     # quick: the accident is looked for in the export of Gen_sectabs (model_checks)
+        jobs["MC_sect_accident"] = dict(module="PassLoop_MC", cfg="PassLoop_MC_sect_accident.cfg")
     jobs["MC_page_leak"] = dict(module="PassLoop_MC", cfg="PassLoop_MC_page_leak.cfg")
     jobs["MC_err"] = dict(module="PassLoop_MC", cfg="PassLoop_MC_err.cfg")
     jobs["MC_pinned"] = dict(module="PassLoop_MC", cfg="PassLoop_MC_68k_pinned.cfg")
@@ -171,6 +203,21 @@ def model_checks(rep, tier, R):
     rep.model("PassLoop_MC(abs, page register not reset per pass)", r)
     rep.part("PassLoop_MC(abs, page register not reset per pass)", fixpoint="violated (expected)",
              program=_prog_of_counterexample(r.out))
+    # the accident the manual describes under FORWARD must be in the model: some program without a definite outcome
+    # ends with an unresolved layout (field `accident` of the export), and TLC refutes Fixpoint without the premise
+    acc = [x for (t, x) in tlc.must(R["Gen_sectabs"], "Gen_sectabs").printed if x.get("accident")]
+    if not acc:
+        raise CheckError("PassLoop no longer reproduces the accident the manual describes under FORWARD (reference "
+                         "in front of an unannounced section-local definition, same name in an outer scope)")
+    rep.part("PassLoop_Gen(sectabs): documented accident", programs_with_unresolved_outcome=len(acc),
+             example=json.dumps(acc[0]["prog"]))
+    if "MC_sect_accident" in R:
+        r = tlc.must(R["MC_sect_accident"], "section accident cfg")
+        if not r.violation or "FixpointAlsoWhenIndefinite" not in r.violation:
+            raise CheckError("PassLoop_MC_sect_accident.cfg: Fixpoint without the ScopeSafe premise must be refuted")
+        rep.model("PassLoop_MC(abs, sections: Fixpoint without the ScopeSafe premise)", r)
+        rep.part("PassLoop_MC(abs, sections: Fixpoint without the ScopeSafe premise)",
+                 fixpoint="violated (expected: the documented accident)", program=_prog_of_counterexample(r.out))
     r = tlc.must(R["MC_Y"], "-Y cfg")
     if not r.violation or "Termination" not in r.violation:
         raise CheckError("PassLoop(ThrowErrors=TRUE) no longer shows the -Y oscillation")
@@ -210,7 +257,13 @@ def generate(rep, cls, tier, r, R):
         big = [x for x in exhaustive if len(x["prog"]) > 3]
         r.shuffle(big)
         quota = {"68k": 1100, "abs": 350, "86": 550, "self68k": 400, "selfabs": 150, "self86": 300,
-                 "pageabs": 900}[cls]
+                 "pageabs": 900, "sectabs": 100, "nestabs": 100}[cls]
+        if cls in SCOPECLASSES:     # (lengths include the ENDSECTIONs the builder appends)
+            # all short ones and all in which the scope rules decide something (a name used where two scopes of
+            # its path define it - the specification marks them), a sample of the others
+            small = [x for x in exhaustive if len(x["prog"]) <= 5 or x["shadow"]]
+            big = [x for x in exhaustive if not (len(x["prog"]) <= 5 or x["shadow"])]
+            r.shuffle(big)
         if cls in SELFCLASSES:      # all of <= 2 items (label + padded self-reference needs two), sampled 3-item ones
             small = [x for x in exhaustive if len(x["prog"]) <= 2]
             big = [x for x in exhaustive if len(x["prog"]) > 2]
@@ -223,9 +276,9 @@ def generate(rep, cls, tier, r, R):
     return exhaustive + sim
 
 
-def _jobs_for(case, dia, salt):
+def _jobs_for(case, dia, salt, anycase=True):
     rr = rng("c01/%s/%s" % (dia, salt))
-    src, choice = passloop.render(case["prog"], case["org"], dia, rr)
+    src, choice = passloop.render(case["prog"], case["org"], dia, rr, anycase=anycase)
     return src, choice
 
 
@@ -267,40 +320,58 @@ def replay_class(rep, bld, cls, cases, tier, more=()):
     todo = []
     for (c, cs) in ((cls, cases),) + tuple(more):
         for ci, case in enumerate(cs):
-            for dia in passloop.CLASSES[c]:
+            dias = passloop.CLASSES[c]
+            if tier == "quick" and c in SCOPECLASSES:
+                # which symbol a name denotes does not depend on the target: one seed-chosen dialect per program
+                dias = [rng("c01/dia/%s%d" % (c, ci)).choice(dias)]
+            for dia in dias:
                 if not passloop.supports(dia, case["prog"]):
+                    continue
+                # the specification says in which mode a program is to be read: csens = written for option -U;
+                # ufree = every name has one spelling, the program means the same with and without -U: run both
+                if case.get("csens"):
+                    src, choice = _jobs_for(case, dia, "%s%d" % (c, ci), anycase=False)
+                    todo.append((case, dia, src, choice, ["-U"]))
                     continue
                 src, choice = _jobs_for(case, dia, "%s%d" % (c, ci))
                 todo.append((case, dia, src, choice, []))
+                if c in SCOPECLASSES and case.get("ufree"):
+                    src, choice = _jobs_for(case, dia, "%s%dU" % (c, ci), anycase=False)
+                    todo.append((case, dia, src, choice, ["-U"]))
     with Phase("replay %s: %d programs x 2 runs" % (cls, len(todo))):
         results = _run_cases(bld, todo)
     obs = []
     pending = []   # (idx, layout)
-    for idx, ((case, dia, src, choice, opts), (res, rex)) in enumerate(zip(todo, results)):
+    for idx, ((case, dia0, src, choice, opts), (res, rex)) in enumerate(zip(todo, results)):
+        dia = dia0 + "".join(" " + o for o in opts)          # for the messages
         rep.evaluated()
-        rep.distinct(src, any(it["k"] in passloop.REFKINDS for it in case["prog"]))
+        rep.distinct(src + " ".join(opts), any(it["k"] in passloop.REFKINDS for it in case["prog"]))
         judge_termination(rep, bld, case, dia, src, opts, res, rex)
         if res.rc == 0 and res.p is not None:
             try:
-                lay = passloop.decode(case["prog"], case["org"], dia, choice, passloop.image_of(res.parsed()))
+                lay = passloop.decode(case["prog"], case["org"], dia0, choice, passloop.image_of(res.parsed()))
             except passloop.Undecodable as ex:
                 if _confirm(bld, src, opts, lambda r2: r2.p == res.p):
                     rep.violation("%s: the code file is not an encoding of the program's items: %s" % (dia, ex),
-                                  case=case["prog"], files={"a.asm": src, "a.p": res.p},
-                                  key={"kind": "undecodable", "dialect": dia})
+                                  case=case["prog"], files={**_optfile(opts), "a.asm": src, "a.p": res.p},
+                                  key={"kind": "undecodable", "dialect": dia0})
                 continue
             obs.append({"id": idx, "prog": case["prog"], "org": case["org"], "lay": lay})
             pending.append((idx, lay))
             compare_layout(rep, case, dia, lay)
+            if not case.get("definite", True):
+                # the accident the manual describes under FORWARD: no definite outcome, so neither the forced extra
+                # pass nor the layout is a verdict (PassLoop_Obs says the same: definite = FALSE)
+                pass
             # extra pass: code file identical
-            if rex.rc == 0 and rex.p is not None and rex.p != res.p:
+            elif rex.rc == 0 and rex.p is not None and rex.p != res.p:
                 if _confirm(bld, src, opts, lambda r2: r2.p != res.p, extra=True):
                     rep.violation("%s: one forced extra pass changed the code file" % dia, case=case["prog"],
-                                  files={"a.asm": src, "normal.p": res.p, "extra.p": rex.p},
+                                  files={**_optfile(opts), "a.asm": src, "normal.p": res.p, "extra.p": rex.p},
                                   key={"kind": "extra-pass-differs", "patched": case["patched"]})
             elif rex.rc not in (0, 97) and not rex.timeout:
                 rep.violation("%s: run with one forced extra pass ended with status %s, normal run with 0: %s"
-                              % (dia, rex.rc, (rex.out + rex.err)[-300:]), case=case["prog"], files={"a.asm": src},
+                              % (dia, rex.rc, (rex.out + rex.err)[-300:]), case=case["prog"], files={**_optfile(opts), "a.asm": src},
                               key={"kind": "extra-pass-status", "patched": case["patched"]})
         compare_prediction(rep, case, dia, res)
     with Phase("PassLoop_Obs %s: %d layouts" % (cls, len(obs))):
@@ -312,13 +383,13 @@ def replay_class(rep, bld, cls, cases, tier, more=()):
     rep.traces(len(obs))
     for idx, lay in pending:
         v = verdicts[idx]
-        if not v["valid"]:
+        if not v["valid"] and v.get("definite", True):
             case, dia, src, choice, opts = todo[idx]
             res = results[idx][0]
             if _confirm(bld, src, opts, lambda r2: r2.p == res.p):
                 rep.violation("%s: emitted code does not resolve the program: problems (item, what) = %s; "
                               "decoded layout %s" % (dia, v["problems"], lay), case=case["prog"],
-                              files={"a.asm": src, "a.p": res.p, "layout.json": json.dumps(lay)},
+                              files={**_optfile(opts), "a.asm": src, "a.p": res.p, "layout.json": json.dumps(lay)},
                               key={"kind": "unresolved", "dialect": dia})
     # samples
     for k in (0, len(todo) // 2, len(todo) - 1):
@@ -327,6 +398,12 @@ def replay_class(rep, bld, cls, cases, tier, more=()):
                     "model": {"passes": case["passes"], "errs": case["errs"], "layout": case["lay"]},
                     "asl_rc": results[k][0].rc})
     return todo, results
+
+
+def _optfile(opts):
+    """command line options a replay has to repeat (-Y is recorded in the key)"""
+    o = [x for x in opts if x != "-Y"]
+    return {"opts.txt": " ".join(o)} if o else {}
 
 
 def _confirm(bld, src, opts, pred, extra=False):
@@ -341,7 +418,7 @@ def _confirm(bld, src, opts, pred, extra=False):
 def judge_termination(rep, bld, case, dia, src, opts, res, rex):
     for (r, extra) in ((res, False), (rex, True)):
         if r.sig is not None:
-            rep.violation("%s: asl killed by signal %s" % (dia, r.sig), case=case["prog"], files={"a.asm": src},
+            rep.violation("%s: asl killed by signal %s" % (dia, r.sig), case=case["prog"], files={**_optfile(opts), "a.asm": src},
                           key={"kind": "crash"})
             return
         if _livelocked(r, bld):
@@ -350,7 +427,7 @@ def judge_termination(rep, bld, case, dia, src, opts, res, rex):
             rep.violation("%s: assembly did not end within %d passes%s (model: ends after %d pass(es))"
                           % (dia, CAP, " when one extra pass is forced after convergence" if extra else "",
                              case["passes"]),
-                          case=case["prog"], files={"a.asm": src},
+                          case=case["prog"], files={**_optfile(opts), "a.asm": src},
                           key={"kind": "livelock", "patched": bool(case["patched"]), "opt_Y": "-Y" in opts})
             return
 
@@ -472,8 +549,11 @@ def trace_generated(rep, bld, cls_todo, tier):
     for cls, todo in cls_todo.items():
         idx = list(range(len(todo)))
         r.shuffle(idx)
+        # (programs without a definite outcome - PassLayout!ScopeSafe - are not monitored: the forced extra pass
+        # legitimately changes them)
+        idx = [i for i in idx if todo[i][0].get("definite", True)]
         sample += [(cls, todo[i]) for i in idx[:(400 if tier == "quick" else 4000)]]
-    jobs = [{"sources": {"a.asm": src}, "opts": ["-q"], "events": "file,sym,ref",
+    jobs = [{"sources": {"a.asm": src}, "opts": ["-q"] + opts, "events": "file,sym,ref",
              "env": {"ASL_VERIF_MAX_PASSES": str(CAP), "ASL_VERIF_EXTRA_PASSES": "1"}, "timeout": 30}
             for (cls, (case, dia, src, choice, opts)) in sample]
     with Phase("traced runs of %d generated programs" % len(jobs)):
@@ -494,6 +574,8 @@ def compare_passes(rep, case, dia, trace):
     """per-pass Repass / label values of the real run vs the model's hist (diagnostic)"""
     if case["patched"] and any(k.startswith("C01-label-padding") for k in rep.known_hit):
         return      # the predictions are those of the repaired SymbolAdder; this tree still has the pinned one
+    if any(it["k"] == "sect" for it in case["prog"]):
+        return      # the export lists the global symbols only; the trace names local ones alike
     labels = {}
     passes = []
     cur = None
@@ -636,12 +718,16 @@ def evaluate(rep, bld, R, tier, parts=("G", "Y", "VG", "VC")):
     cases86 = []
     for cls in CLASSES:
         cases = generate(rep, cls, tier, r, R)
-        more = tuple((x, generate(rep, x, tier, r, R)) for x in EXTRA[cls])
+        more = tuple((x, generate(rep, x, tier, r, R))
+                     for x in EXTRA[cls] + (EXTRA_THOROUGH[cls] if tier != "quick" else ()))
         if cls == "86":
             cases86 = cases
         if "G" in parts:
             todo, results = replay_class(rep, bld, cls, cases, tier, more=more)
             cls_todo[cls] = todo
+    if "G" in parts and "Gen_sectabsU" in R:          # option -U: spellings are different names (own Obs config)
+        todo, results = replay_class(rep, bld, "sectabsU", generate(rep, "sectabsU", tier, r, R), tier)
+        cls_todo["sectabsU"] = todo
     if "Y" in parts:
         y_option_part(rep, bld, cases86, tier)
     if bld.hooks and "VG" in parts and cls_todo:
@@ -735,6 +821,8 @@ def replay(path):
     bld = build.get("hook")
     src = open(src_path).read()
     opts = ["-q"] + (["-Y"] if (v.get("key") or {}).get("opt_Y") else [])
+    if os.path.exists(os.path.join(path, "opts.txt")):
+        opts += open(os.path.join(path, "opts.txt")).read().split()
     for extra in (False, True):
         env = {"ASL_VERIF_MAX_PASSES": str(CAP)}
         if extra:
